@@ -2,6 +2,7 @@
 From PegV Require Import Utf8 Utf8Facts State Terminals TerminalsSpec TerminalsOk Syntax Fields
   FieldsFacts GetFieldsFacts Literals LiteralsFacts Model Spec SpecPos ShapeFacts ErrLog Sim Conform ConformX MemoEq MemoSpec Extracted.
 From PegV Require Import CleanFrame UsualShape.
+From PegV Require Local LocalConform.
 
 Theorem C09_facts :
   Extracted.file_codegen_src_rule_rs = true /\ Extracted.file_runtime_src_state_rs = true /\
@@ -101,3 +102,21 @@ Theorem C09_leftrec_positions :
   exists fs : list (name * value), v1 = VStruct (r_name A) fs (Some (off st, off s1)).
 Proof. exact usual_turn_position. Qed.
 Print Assumptions C09_leftrec_positions.
+
+(* the span clause for the unmarked part of ANY grammar (Local.v) *)
+Theorem C09_span_clean_part :
+  forall (ustate : Type) (hk : hooks ustate) (shk : shooks) (g : grammar) (clean : name -> bool),
+    pure_hooks ustate hk shk ->
+    (forall n, clean n = true -> CleanFrame.rule_clean g clean n) ->
+    (forall n r, clean n = true -> find_rule g n = Some r -> CleanFrame.eclean clean (r_def r) = true) ->
+    clean n_Whitespace = true ->
+    forall fuel rule_name cs u v st', clean rule_name = true -> all_scalar cs ->
+      fst (m_parse ustate Extracted.scfg Extracted.tcfg Extracted.fcfg Extracted.rcfg hk g
+                   fuel rule_name (encode_str cs) u) = MOk v st' ->
+      exists cs' l, sv_rule (srun Extracted.fcfg shk (Local.unmarkb true g) true fuel) rule_name cs 0 = SOk v cs' (off st') l.
+Proof.
+  intros ustate hk shk g clean Hp Hc Hi Hw fuel rule_name cs u v st' L Hs E.
+  pose proof (LocalConform.clean_conforms ustate hk shk g clean Hp Hc Hi Hw fuel rule_name cs u L Hs) as C.
+  rewrite E in C. destruct C as [m [cs' [l [E1 _]]]]. exists cs', l. exact E1.
+Qed.
+Print Assumptions C09_span_clean_part.
